@@ -16,7 +16,8 @@ for d in sorted(os.listdir(base)):
         det = "-"
         miss = "-"
     elif not m.get("confirmed", False):
-        status = "no longer a defect at HEAD (demo passes with the patch: the code path it edits is dead after fix 8cc8e02)"
+        st = m.get("status", "")
+        status = st[:160] if st.startswith("obsolete") else "no longer a defect at HEAD (demo passes with the patch: the code path it edits is dead after fix 8cc8e02)"
         det = "-"
         miss = "-"
     else:
